@@ -43,7 +43,13 @@ build_id() {
 
 	_d="$(date '+%Y-%m-%d')"
 	_c="$(find "$1" -type d -name "${_d}*" | wc -l)"
-	printf '%s.%d\n' "${_d}" "$((_c + 1))"
+	_c="$((_c + 1))"
+	# The count goes down once robsd-clean has removed an older directory
+	# of today, step to the next name that is not taken.
+	while [ -e "$1/${_d}.${_c}" ] || [ -L "$1/${_d}.${_c}" ]; do
+		_c="$((_c + 1))"
+	done
+	printf '%s.%d\n' "${_d}" "${_c}"
 }
 
 # build_init build-dir
